@@ -724,6 +724,8 @@ func run(cx *lib.Ctx) {
 	}
 	directedBlockSpecs(cx)
 	directedExprs(cx)
+	directedTwoMarks(cx)
+	directedGeneratedAttrs(cx)
 	share := func(prefix string) {
 		d := res.Distribution
 		t := d[prefix+"same-result"] + d[prefix+"differ-marked"] + d[prefix+"differ-mark-lost"] + d[prefix+"skipped-error"]
